@@ -17,7 +17,7 @@ from vlib import core
 LEVEL = "model_checking"
 
 QUICK = ["goone", "gomix", "ops", "semis", "cmt", "num1", "num2", "quoted"]
-THOROUGH = ["gomix", "gopairs", "ops", "semis", "cmt", "num1", "num2", "num6", "quoted", "quoted6"]
+THOROUGH = ["gomix", "gopairs", "ops", "semis", "num1", "num2", "num6", "quoted", "quoted6"]
 
 
 def fold(ctx, res):
